@@ -71,9 +71,9 @@ prop("C03",
      min_nontrivial=500)
 
 prop("C04",
-     quick=[plain("TestC04Enum", env={"VERIF_ENUM_LEN": 4}, shards=4), plain("TestC04Variants", env={"VERIF_ENUM_LEN": 4}), plain("TestC04LexBroken"), rapid("TestC04Random", 30000)],
-     thorough=[plain("TestC04Enum", env={"VERIF_ENUM_LEN": 6}, shards=16, timeout="3h"), plain("TestC04Variants", env={"VERIF_ENUM_LEN": 5}, shards=8), plain("TestC04LexBroken"), rapid("TestC04Random", 150000, shards=16)],
-     rule="(a) every token sequence over the 25-symbol token alphabet up to the length bound, rendered with single spaces: Compile must accept it iff the CFG recogniser (ABNF transcribed, no precedence) derives it; (b) 4 lexeme/whitespace variants of every sentence; (c) lexically broken texts in 5 contexts; (d) random CFG sentences of 6-45 tokens and their 1-2 token-edit mutants (delete/insert/duplicate/swap/replace/drop-separator), membership decided by the recogniser. Accepted sentences are additionally searched on null and on a fixed document and must agree with the reference evaluator (no 'compiled into something broken'). Non-trivial: a sentence, or a near-miss non-sentence (one deletion or replacement away from a sentence, by lookup in the enumerated sentence sets; by construction for mutants). Accepted non-sentences explained by the open findings KF-P6/KF-P7 are counted under excluded_known.",
+     quick=[plain("TestC04Enum", env={"VERIF_ENUM_LEN": 4}, shards=4), plain("TestC04Variants", env={"VERIF_ENUM_LEN": 4}), plain("TestC04LexBroken"), rapid("TestC04Random", 30000), rapid("TestC04Literals", 30000)],
+     thorough=[plain("TestC04Enum", env={"VERIF_ENUM_LEN": 6}, shards=16, timeout="3h"), plain("TestC04Variants", env={"VERIF_ENUM_LEN": 5}, shards=8), plain("TestC04LexBroken"), rapid("TestC04Random", 150000, shards=12), rapid("TestC04Literals", 150000, shards=4)],
+     rule="(a) every token sequence over the 25-symbol token alphabet up to the length bound, rendered with single spaces: Compile must accept it iff the CFG recogniser (ABNF transcribed, no precedence) derives it; (b) 4 lexeme/whitespace variants of every sentence; (c) lexically broken texts in 5 contexts, and JSON literals / quoted identifiers with 0-2 character-level edits (appended junk, deleted/duplicated/inserted characters) decided by the standard library's JSON decoder; (d) random CFG sentences of 6-45 tokens and their 1-2 token-edit mutants (delete/insert/duplicate/swap/replace/drop-separator), membership decided by the recogniser. Accepted sentences are additionally searched on null and on a fixed document and must agree with the reference evaluator (no 'compiled into something broken'). Non-trivial: a sentence, or a near-miss non-sentence (one deletion or replacement away from a sentence, by lookup in the enumerated sentence sets; by construction for mutants). Accepted non-sentences explained by the open findings KF-P6/KF-P7 are counted under excluded_known.",
      technique="language-equality differential: exhaustive token-sequence enumeration and random sentences/mutants vs a CFG recogniser transcribed from the ABNF",
      level_text="Both directions (accepts non-sentence, rejects sentence) are violations. Exhaustive to the bound (quick: all 406,900 sequences of <= 4 tokens; thorough: all 254 M sequences of <= 6 tokens), random with separator-focused mutants beyond it.",
      min_nontrivial=1000)
@@ -87,9 +87,9 @@ prop("C07",
      min_nontrivial=5000)
 
 prop("C08",
-     quick=[plain("TestC08Golden", shards=4), plain("TestC08NonArray"), rapid("TestC08Random", 20000)],
-     thorough=[plain("TestC08Golden", shards=8), plain("TestC08NonArray"), rapid("TestC08Random", 50000, shards=16)],
-     rule="every (length, start, stop, step) of the committed CPython golden file (lengths 0..8 x {absent} U [-len-2, len+2] cubed = 34,776 triples incl. step 0, and the 15^3 grid of boundary values up to +/-(2^63-1) and -2^63 for lengths 0..4) on six carriers (root array, field, after a projection, with a right-hand side, []float64 and []string typed slices); all non-array values x parameter grid incl. step 0; random lengths <= 200 with random 64-bit parameters against the reference slice model. Expected element lists come from real Python (golden) / big-integer re-implementation of PySlice_AdjustIndices. Non-trivial: all (distinct by carrier, length, parameters); classes: non-empty, empty, step-0 error, non-array.",
+     quick=[plain("TestC08Golden", shards=4), plain("TestC08NonArray"), rapid("TestC08Random", 20000), rapid("TestC08Pairs", 20000)],
+     thorough=[plain("TestC08Golden", shards=8), plain("TestC08NonArray"), rapid("TestC08Random", 50000, shards=12), rapid("TestC08Pairs", 100000, shards=4)],
+     rule="every (length, start, stop, step) of the committed CPython golden file (lengths 0..8 x {absent} U [-len-2, len+2] cubed = 34,776 triples incl. step 0, and the 15^3 grid of boundary values up to +/-(2^63-1) and -2^63 for lengths 0..4) on six carriers (root array, field, after a projection, with a right-hand side, []float64 and []string typed slices); all non-array values x parameter grid incl. step 0; random lengths <= 200 with random 64-bit parameters against the reference slice model; expressions with two or three slices evaluated side by side, nested or piped (10 forms) against the reference evaluator. Expected element lists come from real Python (golden) / big-integer re-implementation of PySlice_AdjustIndices. Non-trivial: all (distinct by carrier, length, parameters); classes: non-empty, empty, step-0 error, non-array.",
      technique="differential vs CPython slicing (golden file generated by the real Python) and a big-integer reference model; exhaustive window + boundary grid + random",
      level_text="The window and the boundary grid are enumerated completely; larger lengths/parameters randomly.",
      min_nontrivial=10000)
@@ -103,17 +103,17 @@ prop("C09",
      min_nontrivial=3000)
 
 prop("C10",
-     quick=[plain("TestC10Matrix", env={"VERIF_C10_ARITY": 3}, shards=4), plain("TestC10ByExprKeys"), rapid("TestC10Random", 20000)],
-     thorough=[plain("TestC10Matrix", env={"VERIF_C10_ARITY": 4}, shards=16), plain("TestC10ByExprKeys"), rapid("TestC10Random", 50000, shards=16)],
-     rule="exhaustive matrix: (26 built-ins + 5 unknown names) x arity 0..3 (thorough 0..4) x 13 argument classes per position (null, boolean, number, string, empty/number/string/mixed/nested/object arrays, empty/non-empty object, expression reference), arguments as literals or document fields; by-expression functions x arrays of length 0..3 x 7 key kinds per element incl. an erroring key; random ill-typed calls nested in expressions. Oracle: signature table from the specification: ill-typed / wrong arity / unknown => error and nil value, never a panic; well-typed => no error (converse). Non-trivial: the reference evaluation raised a call error or an invalid by-expression key.",
+     quick=[plain("TestC10Matrix", env={"VERIF_C10_ARITY": 3}, shards=4), plain("TestC10ByExprKeys"), plain("TestC10LargeKeys"), rapid("TestC10Random", 20000)],
+     thorough=[plain("TestC10Matrix", env={"VERIF_C10_ARITY": 4}, shards=16), plain("TestC10ByExprKeys"), plain("TestC10LargeKeys"), rapid("TestC10Random", 50000, shards=16)],
+     rule="exhaustive matrix: (26 built-ins + 5 unknown names) x arity 0..3 (thorough 0..4) x 13 argument classes per position (null, boolean, number, string, empty/number/string/mixed/nested/object arrays, empty/non-empty object, expression reference), arguments as literals or document fields; by-expression functions x arrays of length 0..3 x 10 key kinds per element incl. an erroring key; arrays of 22/41/61 elements with exactly one invalid or erroring key at every position x 4 key orderings; random ill-typed calls nested in expressions. Oracle: signature table from the specification: ill-typed / wrong arity / unknown => error and nil value, never a panic; well-typed => no error (converse). Non-trivial: the reference evaluation raised a call error or an invalid by-expression key.",
      technique="exhaustive function x arity x argument-class matrix against a reference signature table (error-presence oracle in both directions), plus random nestings",
      level_text="The full matrix is enumerated; error presence must match the specification in both directions.",
      min_nontrivial=10000)
 
 prop("C11",
-     quick=[plain("TestC11Exhaustive"), rapid("TestC11Random", 20000)],
-     thorough=[plain("TestC11Exhaustive", env={"VERIF_C11_PAIRS": 1}, shards=8), rapid("TestC11Random", 100000, shards=16)],
-     rule="10 erroring seeds (invalid type, arity, unknown function, zero step, inconsistent/bad key, variadic type, expref as value, nested) x 40 strict context constructors (every operator side, projection kind incl. left operands and right-hand sides, filter condition, function argument positions, expression-reference bodies, multi-select members, pipes) exhaustively (thorough: all ordered pairs), every binary operator with an operand of each of the 36 universe values on the other side of the seed (4 carriers; the reference model decides whether the seed must be evaluated), 11 non-strict controls (short-circuit, empty/non-matching projections, multi-select on null), and random stacks of depth 1..6 incl. document-dependent seeds. Oracle: metamorphic (Search(E) errors => Search(C[E]) errors and returns nil) for stacks that guarantee evaluation, and differential vs the reference evaluator for all. Non-trivial: a strict stack whose seed errors.",
+     quick=[plain("TestC11Exhaustive"), plain("TestC11LargeKeys"), rapid("TestC11Random", 20000)],
+     thorough=[plain("TestC11Exhaustive", env={"VERIF_C11_PAIRS": 1}, shards=8), plain("TestC11LargeKeys"), rapid("TestC11Random", 100000, shards=16)],
+     rule="10 erroring seeds (invalid type, arity, unknown function, zero step, inconsistent/bad key, variadic type, expref as value, nested) x 40 strict context constructors (every operator side, projection kind incl. left operands and right-hand sides, filter condition, function argument positions, expression-reference bodies, multi-select members, pipes) exhaustively (thorough: all ordered pairs), every binary operator with an operand of each of the 36 universe values on the other side of the seed (4 carriers; the reference model decides whether the seed must be evaluated), by-expression functions on arrays of 22/41/61 elements with one erroring key at every position (errors raised inside sort comparators), 11 non-strict controls (short-circuit, empty/non-matching projections, multi-select on null), and random stacks of depth 1..6 incl. document-dependent seeds. Oracle: metamorphic (Search(E) errors => Search(C[E]) errors and returns nil) for stacks that guarantee evaluation, and differential vs the reference evaluator for all. Non-trivial: a strict stack whose seed errors.",
      technique="metamorphic error-preservation under strict evaluation contexts + differential vs reference evaluator; exhaustive singles/pairs, random stacks",
      level_text="All single contexts (thorough: pairs) are enumerated; deeper nestings randomly.",
      min_nontrivial=300)
@@ -141,16 +141,16 @@ prop("C06",
 prop("C12",
      quick=[rapid("TestC12", 500, shards=4, race=True, gomaxprocs=4)],
      thorough=[rapid("TestC12", 3000, shards=8, race=True, gomaxprocs=4), rapid("TestC12", 1500, shards=4, race=True, gomaxprocs=2), rapid("TestC12", 1500, shards=4, race=True, gomaxprocs=16)],
-     rule="rapid cases (expression, document) from three sources (expressions whose literals are shared by the compiled AST and flow into sort_by/reverse/merge; the C06 templates on unsorted documents; document-aware all-function expressions) plus expressions over a Go struct document (reflection paths; mode 'struct': results compared with the sequential call) x 5 modes (one compiled expression + one shared document; + private documents; one-shot Search from all goroutines; mixed with concurrent Compile of other expressions; with a concurrent deep reader of the document): 8 goroutines x 20 iterations released by a barrier, binary built with -race (GORACE=halt_on_error: a report fails the run and is attributed to the running case through a breadcrumb file). Oracle: no race report; every goroutine's result equals the sequential result (bag-aware) which equals the reference model; the shared document is unchanged. Non-trivial: at least two goroutines overlapped and the expression reaches a function or projection.",
+     rule="rapid cases (expression, document) from three sources (expressions whose literals are shared by the compiled AST and flow into sort_by/reverse/merge; the C06 templates on unsorted documents; document-aware all-function expressions) plus expressions over a Go struct document (reflection paths; mode 'struct': results compared with the sequential call) x 5 modes (one compiled expression + one shared document; + private documents that differ per goroutine (arrays doubled / truncated; expected result per variant from the reference model); one-shot Search from all goroutines; mixed with concurrent Compile of other expressions; with a concurrent deep reader of the document): 8 goroutines x 20 iterations released by a barrier, binary built with -race (GORACE=halt_on_error: a report fails the run and is attributed to the running case through a breadcrumb file). Oracle: no race report; every goroutine's result equals the sequential result (bag-aware) which equals the reference model; the shared document is unchanged. Non-trivial: at least two goroutines overlapped and the expression reaches a function or projection.",
      technique="concurrent execution of generated cases under the Go race detector + per-goroutine result = sequential result = reference model",
      level_text="The race detector is happens-before based, so coverage is driven by which code paths run concurrently (controlled by the generator) rather than by timing luck; an atomicity violation without a data race is found only if it changes a result in an explored run. The harness does not own the scheduler: reduced strength, see DESIGN.md section 10.",
      min_nontrivial=200,
      assumptions=["schedules are not enumerated: the Go scheduler is not controlled by the harness", "a schedule-dependent failure is replayed by re-running the case 200 times under -race"])
 
 prop("C13",
-     quick=[rapid("TestC13", 1500, shards=4)],
-     thorough=[rapid("TestC13", 10000, shards=16, timeout="2h")],
-     rule="rapid state machine (t.Repeat): state = pool of <= 6 compiled expressions (literal-sharing expressions, reorder templates, document-aware all-function expressions), pool of <= 6 documents (live objects), one long-lived Parser; actions compile / add document / search(i,j) / repeat / one-shot / parse valid / parse invalid (unclosed raw strings after an escaped quote, bad escapes, every parser error site, random bytes) / parse long-then-short; invariant after every step: every pool document deep-equals its original. Model: each search equals a freshly compiled expression on a deep copy of the original document, the one-shot Search, and the reference model (bag-aware); each reused-parser Parse equals NewParser().Parse (AST dump, error text, SyntaxError fields). Non-trivial: a history with >= 2 searches on one compiled expression where an earlier one failed or used another document, or a valid parse after an invalid one on the reused Parser. Distinct by hash of the action trace.",
+     quick=[rapid("TestC13", 1500, shards=4), rapid("TestC13Structs", 6000, shards=2)],
+     thorough=[rapid("TestC13", 10000, shards=14, timeout="2h"), rapid("TestC13Structs", 50000, shards=2)],
+     rule="rapid state machine (t.Repeat): state = pool of <= 6 compiled expressions (literal-sharing expressions, reorder templates, document-aware all-function expressions), pool of <= 6 documents (live objects), one long-lived Parser; actions compile / add document / search(i,j) / repeat / one-shot / parse valid / parse invalid (unclosed raw strings after an escaped quote, bad escapes, every parser error site, random bytes) / parse long-then-short; invariant after every step: every pool document deep-equals its original. Model: each search equals a freshly compiled expression on a deep copy of the original document, the one-shot Search, and the reference model (bag-aware); each reused-parser Parse equals NewParser().Parse (AST dump, error text, SyntaxError fields). Additionally (TestC13Structs): one compiled navigational expression searched twice round over 2-4 documents of different run-time generated struct types must agree with the one-shot Search every time. Non-trivial: a history with >= 2 searches on one compiled expression where an earlier one failed or used another document, or a valid parse after an invalid one on the reused Parser. Distinct by hash of the action trace.",
      technique="stateful model-based testing (rapid state machine) against the model 'fresh Compile / fresh Parser per call' and the reference evaluator",
      level_text="Histories are explored randomly and shrink as one value; the replay file is the action trace.",
      min_nontrivial=300)
@@ -164,9 +164,9 @@ prop("C14",
      min_nontrivial=10000)
 
 prop("C15",
-     quick=[rapid("TestC15Pipe", 20000), rapid("TestC15Subst", 20000), plain("TestC15Shapes", shards=6)],
-     thorough=[rapid("TestC15Pipe", 100000, shards=8), rapid("TestC15Subst", 100000, shards=8), plain("TestC15Shapes", shards=6)],
-     rule="rapid: (a) pairs (A, B), B generated against the value of A: Search('(A) | (B)', d) vs Search(B, Search(A, d)): equal values, error exactly when a step errors; (b) sub-expression S in one of 26 root-evaluated contexts C (pipe left, ||/&& operands, multi-select members, function arguments, comparator operands, projection left-hand sides, ...): Search(C[S], d) vs Search(C[literal(Search(S, d))], d). (c) shape grid: every projection-shape expression A (16 left-hand sides x 18 projection operator chains x 18 right-hand sides) piped into 20 short right-hand sides B ([0], [-1], length(@), [?@], type(@), ...) on 11 documents with null-producing elements. The library is compared with itself; the reference model only supplies the ambiguity verdict and the bag structure for order-insensitive comparison. Non-trivial: A non-identity with non-null result and B not a literal; S not already a literal.",
+     quick=[rapid("TestC15Pipe", 20000), rapid("TestC15Subst", 20000), plain("TestC15Shapes", shards=6), plain("TestC15Structs")],
+     thorough=[rapid("TestC15Pipe", 100000, shards=8), rapid("TestC15Subst", 100000, shards=8), plain("TestC15Shapes", shards=6), plain("TestC15Structs")],
+     rule="rapid: (a) pairs (A, B), B generated against the value of A: Search('(A) | (B)', d) vs Search(B, Search(A, d)): equal values, error exactly when a step errors; (b) sub-expression S in one of 26 root-evaluated contexts C (pipe left, ||/&& operands, multi-select members, function arguments, comparator operands, projection left-hand sides, ...): Search(C[S], d) vs Search(C[literal(Search(S, d))], d). (c) shape grid: every projection-shape expression A (16 left-hand sides x 18 projection operator chains x 18 right-hand sides) piped into 20 short right-hand sides B ([0], [-1], length(@), [?@], type(@), ...) on 11 documents with null-producing elements. (d) the pipe law on a Go struct document (typed slices, pointers) with type-sensitive right-hand sides (sort, max, join, sum, ==). The library is compared with itself; the reference model only supplies the ambiguity verdict and the bag structure for order-insensitive comparison. Non-trivial: A non-identity with non-null result and B not a literal; S not already a literal.",
      technique="algebraic laws checked on the library itself (metamorphic): pipe splitting and literal substitution",
      level_text="Metamorphic relations over generated expressions and documents; no expected answers needed.",
      min_nontrivial=3000)
